@@ -50,6 +50,7 @@ type ccase struct {
 	Quoted string   `json:"quoted,omitempty"`
 	Len    int      `json:"len,omitempty"`    // builder: content length
 	Events [][2]int `json:"events,omitempty"` // builder: [offset,endoffset] in report order
+	Second []byte   `json:"second,omitempty"` // reuse-json: the second input parsed with the same parser value
 }
 
 // ---------------------------------------------------------------------------------------------
@@ -1023,6 +1024,8 @@ func run(c *core.Ctx) {
 		}
 	}
 
+	reusePhase(c)
+
 	keys := make([]string, 0, len(col.m))
 	for k := range col.m {
 		keys = append(keys, k)
@@ -1044,6 +1047,8 @@ func replay(c *core.Ctx, raw json.RawMessage) error {
 	var fs []shipped.Finding
 	ctx := context.Background()
 	switch cc.Kind {
+	case "reuse-json":
+		return replayReuse(cc)
 	case "parser":
 		cfg := shipped.ParserConfigByName(cc.Parser)
 		if cfg == nil {
